@@ -78,21 +78,73 @@ class Report:
             raise AnalysisError(f"rule {rule}: {c} instances found, floor is {n} "
                                 f"(anchor moved or idiom not recognised)")
 
+    def _run_one(self, r, e):
+        """run one rule function on engine e, recording into self; returns an error text or None."""
+        try:
+            r(e, self)
+        except AnalysisError as ex:
+            return f"{getattr(r, '__name__', r)}: {ex}"
+        except Exception as ex:  # noqa -- an internal error of one rule is an analysis error of that rule, never a pass and never a violation
+            import traceback
+            tb = traceback.extract_tb(ex.__traceback__)[-1]
+            return (f"{getattr(r, '__name__', r)}: internal error {type(ex).__name__}: {ex} ({os.path.basename(tb.filename)}:{tb.lineno}); "
+                    "the code has a shape this rule does not understand")
+        return None
+
+    def _snapshot(self):
+        return (len(self.obligations), len(self.findings), len(self.notes), dict(self.info), dict(self.floors), list(self.trusted))
+
+    def _rollback(self, snap):
+        delta = (self.obligations[snap[0]:], self.findings[snap[1]:], self.notes[snap[2]:], dict(self.info), dict(self.floors), list(self.trusted))
+        del self.obligations[snap[0]:]
+        del self.findings[snap[1]:]
+        del self.notes[snap[2]:]
+        self.info, self.floors, self.trusted = dict(snap[3]), dict(snap[4]), list(snap[5])
+        return delta
+
+    def _restore(self, delta):
+        self.obligations += delta[0]
+        self.findings += delta[1]
+        self.notes += delta[2]
+        self.info, self.floors, self.trusted = delta[3], delta[4], delta[5]
+
     def run_rules(self, e, rules):
-        """Run every rule; an AnalysisError in one rule does not hide the
-        violations found by the others.  Errors are re-raised at the end only
-        if no violation at all was found (never a pass)."""
+        """Run every rule; an AnalysisError in one rule does not hide the violations found by the others.  Errors are
+        re-raised at the end only if no violation at all was found (never a pass).
+
+        Refinement: when a rule reports a violation that is not a listed known finding, or declines, it is run again on
+        equivalent programs in which single-call-site private helpers are inlined (inline.py: the inverse of extract-method).
+        If the rule accepts one of them -- no violation, no error, its floors met -- that verdict stands: the variants are
+        the same program written differently, and an intraprocedural rule follows its path through them."""
         errors = []
+        known = load_known()
+        refine = os.environ.get("LOKYSA_NO_REFINE") != "1" and hasattr(e, "variant")
         for r in rules:
-            try:
-                r(e, self)
-            except AnalysisError as ex:
-                errors.append(f"{getattr(r, '__name__', r)}: {ex}")
-            except Exception as ex:  # noqa -- an internal error of one rule is an analysis error of that rule, never a pass and never a violation
-                import traceback
-                tb = traceback.extract_tb(ex.__traceback__)[-1]
-                errors.append(f"{getattr(r, '__name__', r)}: internal error {type(ex).__name__}: {ex} ({os.path.basename(tb.filename)}:{tb.lineno}); "
-                              "the code has a shape this rule does not understand")
+            snap = self._snapshot()
+            err = self._run_one(r, e)
+            bad = [f for f in self.findings[snap[1]:] if match_known(self.prop, f, known) is None]
+            if (bad or err) and refine:
+                first = self._rollback(snap)
+                accepted = False
+                for sel in _selections(e, bad, err):
+                    v = e.variant(sel)
+                    if v is None:
+                        continue
+                    err2 = self._run_one(r, v)
+                    bad2 = [f for f in self.findings[snap[1]:] if match_known(self.prop, f, known) is None]
+                    if not bad2 and not err2:
+                        names = ", ".join(sorted(k[2] for k in v.prog.inlined))
+                        self.ok("R-REFINE", f"{getattr(r, '__name__', r)}: decided on the equivalent program with the single-call-site helper(s) {names} inlined "
+                                f"(on the program as written: {('violation ' + bad[0].rule + ' in ' + bad[0].func) if bad else 'declined'})", None)
+                        self.info.setdefault("refined_rules", []).append({"rule_function": getattr(r, "__name__", str(r)), "inlined": names})
+                        accepted = True
+                        err = None
+                        break
+                    self._rollback(snap)
+                if not accepted:
+                    self._restore(first)
+            if err:
+                errors.append(err)
         self.analysis_errors = getattr(self, "analysis_errors", []) + errors
         for er in errors:
             self.note("analysis incomplete: " + er)
@@ -103,6 +155,43 @@ class Report:
     def trust(self, s):
         if s not in self.trusted:
             self.trusted.append(s)
+
+
+def _selections(e, bad, err=None):
+    """helper selections to try, most specific first: helpers related to the functions a finding names (the helper itself, or
+    a helper called there), one at a time, then together, then every eligible helper."""
+    try:
+        cands = e.inline_candidates()
+    except Exception:  # noqa
+        return
+    names = sorted({k[2] for k in cands})
+    rel = []
+    for f in bad:
+        short = f.func.split(".")[-1]
+        if short in names and short not in rel:
+            rel.append(short)
+        for q, fn in e.prog.funcs.items():
+            if fn.short == f.func or q.endswith(":" + f.func):
+                import ast as _ast
+                for n in _ast.walk(fn.node):
+                    if isinstance(n, _ast.Call):
+                        nm = n.func.attr if isinstance(n.func, _ast.Attribute) else n.func.id if isinstance(n.func, _ast.Name) else None
+                        if nm in names and nm not in rel:
+                            rel.append(nm)
+    seen = set()
+    tail = []
+    if not bad:
+        # a rule that declined names no function: try the helpers one by one, those of a module the message mentions first
+        def pri(n):
+            paths = [k[0] for k in cands if k[2] == n]
+            return 0 if err and any(p_[:-3].replace("/", ".") in err for p_ in paths) else 1
+        tail = [[n] for n in sorted((n for n in names if n not in rel), key=lambda n: (pri(n), n))][:12]
+    for sel in [[n] for n in rel] + ([rel] if len(rel) > 1 else []) + [None] + tail:
+        key = None if sel is None else frozenset(sel)
+        if key in seen:
+            continue
+        seen.add(key)
+        yield sel
 
 
 def load_known():
